@@ -257,7 +257,7 @@ def profiles(nc, tier, seed):
     levels = list(range(1, nc + 1))
     if nc <= 6:
         perms = list(itertools.permutations(levels))
-        if nc > 4 and tier != 'thorough':
+        if False:
             k = 120
             step = max(1, len(perms) // k)
             perms = perms[seed % step::step][:k]
